@@ -94,6 +94,11 @@ func (g *G) IGMPv3Q() Proto {
 	grp, gw := g.ip4("igmp_group")
 	srcs, sw := g.ip4List("igmp_src", g.ListLen("igmp_nsrc", 30))
 	mrt, qqic := g.U8("igmp_mrt"), g.U8("igmp_qqic")
+	if g.Chance("igmp_general_query", 1, 5) {
+		// a general query: no group (RFC 3376 4.1.3: the group address field is zero)
+		grp, gw = nil, []byte{0, 0, 0, 0}
+		g.Label("igmpv3_general_query_nil_group")
+	}
 	q := protocol.NewIGMPv3Query(grp, mrt, qqic, srcs)
 	q.Checksum = g.U16("igmp_csum")
 	q.SuppressRouterProcessing = g.Bool("igmp_s")
